@@ -47,8 +47,10 @@ pub fn run_search(reader: &IndexReader, req: &Value) -> std::result::Result<Sear
   }
 }
 
+/// Score in units of 1e-4, kept inside TLC's 32-bit integers (the absolute oracles are not
+/// applied to scores anywhere near the bound).
 fn e4(x: f32) -> i64 {
-  (x as f64 * 10000.0).round() as i64
+  ((x as f64 * 10000.0).round() as i64).clamp(-2_000_000_000, 2_000_000_000)
 }
 
 pub fn obs_ids(res: &std::result::Result<SearchResult, String>) -> Value {
